@@ -11,6 +11,7 @@
 (*   enum     an unknown string in one enumeration-valued place            *)
 (*   member   an unknown member injected at one nesting level              *)
 (*   opt      which optional members are present                           *)
+(*   order    member order inside list entries: natural | reversed         *)
 (* The document so presented must parse to the same value as the canonical *)
 (* one (arrays, numbers, known strings only; unknown parts left out).      *)
 (***************************************************************************)
@@ -22,7 +23,13 @@ Algs == {"number", "string", "float"}
 Enums == {"none", "attestation", "userVerification", "attachment", "residentKey", "transport", "hint", "credType", "algValue", "attFormat"}
 MembersAt == {"none", "top", "rp", "user", "selection", "descriptor", "extensions", "params"}
 Opts == {"none", "all", "lists", "selection"}
-Cases == [req : {"create", "get"}, bin : Bins, timeout : Timeouts, alg : Algs, enum : Enums, member : MembersAt, opt : Opts]
+\* order: the members of every list entry (descriptor, parameter) in natural or in reversed order - the entry that
+\* has to be dropped then has its offending member first instead of last
+Cases == [req : {"create", "get"}, bin : Bins, timeout : Timeouts, alg : Algs, enum : Enums, member : MembersAt, opt : Opts,
+          order : {"natural"}]
+         \cup
+         [req : {"create", "get"}, bin : {"array", "b64url"}, timeout : {"absent"}, alg : {"number", "string"}, enum : Enums,
+          member : MembersAt, opt : Opts, order : {"rev"}]
 
 JudgeParse(e) == ~e.crash /\ e.parse = "ok" /\ e.same
 
